@@ -20,14 +20,14 @@ NW = 16
 # family -> number of shards
 QUICK = [("read:srv:134h:2:2:p1", 16), ("read:srv:13h:3:1:p1", 8), ("read:cli:134:2:2:p2", 4), ("read:bare:134:3:2:p0", 2),
          ("hbloss:3:p1", 2),
-         ("flow:bare:Mh:5:p1", 4), ("flow:bare:Mhq10X:3:p2", 16), ("flow:cli:Mh0X:3:p1", 4),
+         ("flow:bare:Mh:5:p1", 4), ("flow:bare:Mhq10X:3:p2", 16), ("flow:cli:Mh0X:3:p1", 4), ("flowmulti:bare:3:p2", 1), ("flowmulti:cli:2:p1", 1),
          ("route:core:2:2:d1", 8), ("route:core:=1/1:d3", 1), ("route:core:=1,2c/1,2:d2", 1), ("route:core:=1,1/1,1:d2", 1),
          ("route:core:=1c,1/1,f1:d2", 1), ("route:core:=1t,2/s1,2:d2", 1), ("route:core:=1,2/2,3:d2", 1),
          ("route:full:=1/1:d2", 1), ("route:full:=1,2/1,2:d1", 1), ("route:full:=1,2c/2,1:d1", 1)]
 QUICK_REAL = ["cred:derive", "cred:listener", "cred:direct", "cred:many:9"]
 THOROUGH = [("read:srv:134h2:3:2:p2", 16), ("read:cli:1342:3:2:p2", 16), ("read:bare:1342:4:3:p0", 16),
             ("hbloss:5:p2", 16),
-            ("flow:bare:Mhq10X:5:p2", 16), ("flow:cli:Mhq0X:4:p2", 16), ("flow:bare:Mh:6:p3", 16),
+            ("flow:bare:Mhq10X:5:p2", 16), ("flow:cli:Mhq0X:4:p2", 16), ("flow:bare:Mh:6:p3", 16), ("flowmulti:bare:4:p3", 1), ("flowmulti:cli:3:p2", 1),
             ("route:core:2:2:d2", 16), ("route:core:3:3:d1", 16), ("route:core:=1,2c/1,2:d3", 1), ("route:core:=1c,1/1,1:d3", 1),
             ("route:core:=1,2,1c/1,2,f1:d2", 1), ("route:full:2:2:d1", 16), ("route:full:=1,2/1,2:d2", 1), ("route:full:=1c,2/1,2:d2", 1)]
 THOROUGH_REAL = ["cred:derive", "cred:listener", "cred:direct", "cred:many:4", "cred:many:9", "cred:many:16", "cred:many:32"]
@@ -60,7 +60,7 @@ def run(tier, seed, t0):
         return ("data-race:" + k) if "conjure/pkg/dtls." in text else None
     res += vlib.race_pass("c16real", INJECTS, "./internal/zzverif_c16", ["cred:direct", "cred:many:4"] + (["cred:listener", "cred:many:16"] if tier == "thorough" else []), budget=120, keyfn=key)
     vlib.finish(PID, tier, "model_checking", res, t0, ASSUME,
-                "per family (see scenarios): read = every message sequence up to the stated depth over the size alphabet (heartbeats interleaved anywhere) x every terminal (EOF, reset, data+error, silence) x every cyclic read-size pattern over {1,2,3,4,6} x all interleavings within the preemption bound, oracle: bytes read == concatenation of the peer's data, error only after all of it, no heartbeat surfaces; hbloss = heartbeat trains (count, period, phase) x data arrival sets, oracle on the virtual clock: closed no later than 2 intervals after the last heartbeat, nothing lost before the earliest legitimate close; flow = every write-size sequence x every drain schedule of the modelled network (x close at any moment), oracle: buffered amount <= limit + one write, every write returns, accepted messages == successful writes; route = every multiset of acceptors {secret, cancelled at an arbitrary moment, short timeout} x clients {genuine, unregistered, forged, stalling} x all schedules within the delay bound on the real listener code, oracle: no cross delivery, nothing delivered twice, forged/unregistered never complete, registration maps empty after every accept returned, a completed handshake reaches its sole uncancelled acceptor; cred = secret alphabet squared through the real pion stack",
+                "per family (see scenarios): read = every message sequence up to the stated depth over the size alphabet (heartbeats interleaved anywhere) x every terminal (EOF, reset, data+error, silence) x every cyclic read-size pattern over {1,2,3,4,6} x all interleavings within the preemption bound, oracle: bytes read == concatenation of the peer's data, error only after all of it, no heartbeat surfaces; hbloss = heartbeat trains (count, period, phase) x data arrival sets, oracle on the virtual clock: closed no later than 2 intervals after the last heartbeat, nothing lost before the earliest legitimate close; flow = every write-size sequence x every drain schedule of the modelled network (x close at any moment), oracle: buffered amount <= limit + one write, every write returns, accepted messages == successful writes; flowmulti = k goroutines writing a maximum message on one connection at the same moment (one already buffered), same bound; route = every multiset of acceptors {secret, cancelled at an arbitrary moment, short timeout} x clients {genuine, unregistered, forged, stalling} x all schedules within the delay bound on the real listener code, oracle: no cross delivery, nothing delivered twice, forged/unregistered never complete, registration maps empty after every accept returned, a completed handshake reaches its sole uncancelled acceptor; cred = secret alphabet squared through the real pion stack",
                 seed=seed)
 
 
